@@ -939,3 +939,72 @@ SUBCHECKS = [
              rule="OPB output with header keys/values, description and variable names containing line breaks (LF, CRLF, CR, VT, FF, FS, NEL, LS) and payloads that look like constraints or spec lines; oracle: every line that is not one of the formula's constraints starts with '*', counts and constraints unchanged; LaTeX rows still carry the names; non-trivial: a line feed in a text that is exported",
              required_labels=['line-feed-in-header', 'line-feed-in-variable-name', 'other-line-separator', 'header', 'varnames']),
 ]
+
+
+# ---------------------------------------------------------------------------
+# large formulas (size thresholds of buffers / block writers); added after a seeded DIMACS writer change
+# that only misbehaved above 4096 clauses
+
+def run_large(case):
+    from cnfgen import CNF
+    from cnfgen.formula.opb import OPB
+    from checks.c18 import opb_problem
+    m, n, cls = case['m'], case['n'], case['cls']
+    F = CNF() if cls == 'CNF' else OPB()
+    F.update_variable_number(n)
+    rows = []
+    x = case['salt']
+    for i in range(m):
+        lits = []
+        for j in range(3 if i % 5 else i % 2):
+            x = (x * 1103515245 + 12345) & 0x7FFFFFFF
+            v = x % n + 1
+            lits.append(v if (x >> 16) & 1 else -v)
+        if cls == 'OPB' and i % 3 == 0:
+            terms = [(1 + (abs(l) % 4), l) for l in lits]
+            F.add_constraint(terms + ['>=' if i % 2 else '==', 1 + i % 3])
+        else:
+            F.add_clause(lits)
+    want = [list(r) for r in F]
+    buf = io.StringIO()
+    F.to_file(buf, fileformat='opb', export_header=case['header'])
+    text = buf.getvalue()
+    what = "OPB rendering of a {} with {} variables and {} rows".format(cls, n, m)
+    prob = opb_problem(text)
+    if prob is not None:
+        raise Violation("{}: {}".format(what, prob))
+    res = read_opb(text)
+    if res.errors:
+        raise Violation("{}: {}".format(what, res.errors[:2]))
+    if res.declared_variables != n or res.declared_constraints != m or len(res.constraints) != m:
+        raise Violation("{}: header says {} variables / {} constraints, {} constraints found".format(what, res.declared_variables, res.declared_constraints, len(res.constraints)))
+    for i, ((gt, grel, gdeg), row) in enumerate(zip(res.constraints, want)):
+        if cls == 'CNF':
+            et, erel, edeg = [(1, l) for l in row], '>=', 1
+        else:
+            et, erel, edeg = list(row[:-2]), row[-2], row[-1]
+        if Counter((c, v if not neg else -v) for c, v, neg in gt) != Counter(et) or grel != ('>=' if erel == '>=' else '=') or gdeg != edeg:
+            raise Violation("{}: row {} reads {} {} {} but memory holds {} {} {}".format(what, i, gt, grel, gdeg, et, erel, edeg))
+    # LaTeX: one row per constraint across all pages
+    tex = io.StringIO()
+    F.to_file(tex, fileformat='latex', export_header=case['header'])
+    doc = read_latex(tex.getvalue())
+    nrows = sum(len(b) for b in doc.blocks)
+    if nrows is not None and nrows != m and not (m == 0 and nrows == 1):
+        raise Violation("LaTeX document of a {} with {} rows shows {} rows".format(cls, m, nrows))
+    return Outcome(labels=[cls, 'rows>=4096' if m >= 4096 else 'rows<4096'], nontrivial=True)
+
+
+def enum_large(tier):
+    ths = [4095, 4096, 4097, 8193] if tier == 'quick' else [4095, 4096, 4097, 8191, 8192, 8193, 16385, 32769]
+    i = 0
+    for m in ths:
+        for cls in ('CNF', 'OPB'):
+            i += 1
+            yield {'m': m, 'n': 40 if i % 2 else 3000, 'cls': cls, 'salt': i, 'header': bool(i % 2)}
+
+
+SUBCHECKS.append(
+    SubCheck('large', run_large, enumerate_cases=enum_large,
+             rule="CNF and OPB formulas with 4095..8193 (thorough: ..32769) rows rendered to OPB (strict reader: counts, every row) and LaTeX (row count); non-trivial: all",
+             required_labels=['rows>=4096']))
